@@ -88,8 +88,11 @@ fn whole_body_loop(n: usize, total: usize, chunked: bool, rec: &mut Rec) {
     let turn = (n + total / 1000) % 5;
     // (plus, by buffer size: one more head write, HTTP/1.0 with both framing headers left to C03, a
     // non-framing transfer-encoding on the original, a flow produced by a redirect)
-    let extra = [0u16, 256, 512, 1024, 2048, 8192, 0][(n / 3 + total / 5000) % 7];
-    let variant: u16 = if turn == 0 { extra & (256 | 512 | 2048 | 8192) } else { 2 | ((turn as u16 - 1) << 5) | (extra & (256 | 1024 | 8192)) };
+    let extra = [0u32, 256, 512, 1024, 2048, 8192, 2048 | 1024, 0][(n / 3 + total / 5000) % 8];
+    let variant: u32 = if turn == 0 { extra & (256 | 512 | 2048 | 8192 | if extra & 2048 != 0 { 1024 } else { 0 }) } else { 2 | ((turn as u32 - 1) << 5) | (extra & (256 | 1024 | 8192)) };
+    if turn == 0 && extra == 2048 | 1024 {
+        rec.cov("loop-sender/redirected-from-a-request-with-its-own-length");
+    }
     if extra == 8192 {
         rec.cov("loop-sender/head-line-by-line");
     }
